@@ -198,8 +198,11 @@ def unquote_annotations(fdef):
 def check_signature(sigtext, overload):
     header = "from typing import List, overload, Annotated, Literal\nDEFAULT = 7\nclass Foo: pass\n"
     if overload:
-        # two overloads with their own signatures, then the implementation
-        src = header + "@overload\ndef f%s: ...\n@overload\ndef f(zz: int, /) -> int: ...\ndef f(*args, **kwargs): pass\n" % sigtext
+        # two overloads with their own signatures, then the implementation; the decorator is spelled in one of four ways
+        # (bare name, imported under an alias, through the module, through a module alias) chosen by the signature's length
+        spell = ["overload", "_ov", "typing.overload", "t.overload"][len(sigtext) % 4]
+        header += "from typing import overload as _ov\nimport typing\nimport typing as t\n"
+        src = header + "@%s\ndef f%s: ...\n@%s\ndef f(zz: int, /) -> int: ...\ndef f(*args, **kwargs): pass\n" % (spell, sigtext, spell)
     else:
         src = header + "def f%s: pass\n" % sigtext
     sample(source=src)
@@ -253,7 +256,7 @@ def _parts_sig():
     parts=_parts_sig, timeout=(240, 2400), cls="E", tracing="concrete-after-choice", twin="first",
     code=["pydoctor.astbuilder.ModuleVistor._handleFunctionDef", "._annotations_from_function", "pydoctor.astutils.unstring_annotation",
           "pydoctor.astbuilder._ValueFormatter/_AnnotationValueFormatter", "pydoctor.templatewriter.pages.format_signature", "inspect.Signature.__str__"],
-    bounds={"quick": "<=2 positional-only, <=2 positional, every count of defaults, *args or not, <=2 keyword-only with every default mask, **kwargs or not, 3 annotation placements (none / all / alternate; forms: name, quoted subscript, double-quoted name, None, quoted None, subscript with None, quoted name inside a subscript, Annotated with a quoted type and string metadata, Literal with a string, a quoted union as operand of a tighter-binding operator), 5 return forms, name or constant defaults (chosen by the layout), plain function, and overload set with all parameters annotated",
+    bounds={"quick": "<=2 positional-only, <=2 positional, every count of defaults, *args or not, <=2 keyword-only with every default mask, **kwargs or not, 3 annotation placements (none / all / alternate; forms: name, quoted subscript, double-quoted name, None, quoted None, subscript with None, quoted name inside a subscript, Annotated with a quoted type and string metadata, Literal with a string, a quoted union as operand of a tighter-binding operator), 5 return forms, name or constant defaults (chosen by the layout), plain function, and overload set with all parameters annotated (decorator spelled overload / an alias of it / typing.overload / t.overload)",
             "thorough": "<=3 positional-only and <=3 positional, full product incl. name/constant defaults and overload sets for every annotation placement"},
     outside="default/annotation expressions beyond constants, names and one subscript (C15); signatures from introspection of C modules",
 )
